@@ -761,7 +761,9 @@ def run_impl(case: dict) -> Tuple[List[str], List[dict]]:
         def randbits(k):  # every other draw is 0, the others are distinct
             draws[0] += 1
             return 0 if draws[0] % 2 == 1 else 30000 + draws[0]
-        _icmp_mod.secrets = types.SimpleNamespace(randbits=randbits)
+        # since the F-9 repair (b6300b7) a generated identifier is `10000 + secrets.randbelow(55536)`: it can no longer be 0; the stub
+        # keeps both entry points so the family still exercises the smallest and repeated identifiers
+        _icmp_mod.secrets = types.SimpleNamespace(randbits=randbits, randbelow=lambda n: randbits(16) % n)
     try:
         try:
             net, objs, ifaces = build_impl(case, rec)
